@@ -288,6 +288,33 @@ def bare_derivative(p, depth=0):
     return None
 
 
+def _rtol_only(a, depth=0):
+    """atom computed from the relative tolerance alone (rtol, rtol^(2/3), ...): scale-free"""
+    if a.startswith("rtol"):
+        return True
+    d = DEFS.get(a)
+    if not d or depth > 6:
+        return False
+    args = [x for x in d[1] if isinstance(x, Poly)]
+    return bool(args) and all(x.is_const() or (x.atoms() and all(_rtol_only(b, depth + 1) for b in x.atoms())) for x in args) \
+        and any(not x.is_const() for x in args)
+
+
+def tol_form(p):
+    """a tolerance scale built from the raw tolerances has the shape  atol*g(rtol) + h(rtol)*|state|: the absolute tolerance
+    is never multiplied by a state quantity, the relative tolerance always is.  Returns a description of the first monomial
+    that does not."""
+    for m, c in p.t.items():
+        at = [a for a, e in m if a.startswith("atol")]
+        rt = [a for a, e in m if not a.startswith("atol") and _rtol_only(a)]
+        rest = [a for a, e in m if not a.startswith("atol") and not _rtol_only(a)]
+        if at and rest:
+            return "the absolute tolerance %s is multiplied by %s" % (at[0], rest[0][:60])
+        if rt and not at and not rest:
+            return "the relative tolerance %s is added bare (not multiplied by a state magnitude)" % rt[0]
+    return None
+
+
 def r_grade_solvers(rep, f):
     """the accept operand is scale-free and copy-free; every tolerance scale has the grade of the state"""
     for mod, ty in CONTROLLED:
@@ -313,7 +340,10 @@ def r_grade_solvers(rep, f):
             gd = g.poly(den)
             key = "R-GRADE-SCALE:%s:tolerance-scale%d" % (fn, len(seen))
             bd = bare_derivative(den)
-            if bd:
+            tf = tol_form(den)
+            if tf:
+                rep.violation("R-GRADE-SCALE", key, "the tolerance scale `%s` is not of the form atol + rtol*|y|: %s" % (sig[:120], tf), d["node"].get("sp") if d.get("node") else None)
+            elif bd:
                 rep.violation("R-GRADE-SCALE", key, "the tolerance scale `%s` contains the bare right-hand-side value %s (a slope, dimension state/time) where a state value belongs: "
                               "the relative tolerance is then applied to |y'| instead of |y|" % (sig[:120], bd), d["node"].get("sp") if d.get("node") else None)
             elif gd == (0, 1):
@@ -334,7 +364,10 @@ def r_grade_solvers(rep, f):
                     seen.add(sig)
                     gd = g.poly(den)
                     key = "R-GRADE-SCALE:%s:tolerance-scale%d" % (fn, len(seen))
-                    if gd == (0, 1):
+                    tf = tol_form(den)
+                    if tf:
+                        rep.violation("R-GRADE-SCALE", key, "the tolerance scale `%s` is not of the form atol + rtol*|y|: %s" % (sig[:120], tf), ev["node"].get("sp") if isinstance(ev.get("node"), dict) else hk.main_loop.get("sp"))
+                    elif gd == (0, 1):
                         rep.ok("R-GRADE-SCALE", key, "scale %s has the grade of the state" % sig[:80])
                     elif gd == UNKNOWN:
                         rep.note("%s grade of %s not determined" % (key, sig[:80]))
@@ -534,6 +567,9 @@ def parity_fn(odd, even=()):
         elif base in ("phi", "widen", "max", "min", "clamp"):
             known = {p_ for p_ in ps if p_ is not None}
             r = known.pop() if len(known) == 1 else ("even" if not known else "mixed")
+            if r == "odd" and base in ("max", "min", "clamp"):
+                # min(-a, -b) = -max(a, b): ordering signed quantities is not reflection-symmetric
+                r = "mixed"
             if r == "mixed" and not why:
                 why.append("%s of %s" % (base, ["%s: %s" % (par(x, depth + 1), repr(x)[:90]) for x in args if not x.is_const()][:4]))
         elif base in ("powf", "powi"):
